@@ -5,6 +5,7 @@ import RpgpProofs.CanonReader
 import RpgpProofs.Framing
 import RpgpProofs.Seipd1
 import RpgpProofs.Utf8
+import RpgpProofs.StreamFail
 /-!
 # C09 — streaming is transparent: results independent of I/O fragmentation and faults
 
@@ -20,6 +21,11 @@ the streaming idiom rpgp uses everywhere, plus one small obligation per componen
   last is empty (`NoSpuriousEOF`), which is then proved per component.
 * **faults** — `fill_buffer_error_not_swallowed` and `failing_refill_surfaces`: an error is either
   returned or still pending; a clean end of stream implies no refill failed and nothing is missing.
+  A consumer may also keep polling after an error (`std::io::copy` does on `Interrupted`): for the
+  stream encryptors (`StreamFail.lean`) `encryptor_error_is_sticky` shows every later `read` fails too,
+  and `encryptor_releases_only_transformed_data` that nothing but `enc` of source segments (then the
+  trailer) is ever handed out — in the pinned tree the refill buffer, which holds plaintext at that
+  point, was handed out by the next `read` (`prefix_encryptor_leaks_refill_buffer_witness`).
 -/
 namespace Rpgp.C09
 open Rpgp
@@ -110,6 +116,54 @@ theorem utf8_check_chunk_independent (vut : Bytes → Nat) (L : VutLaws vut) (hn
     utf8CheckChunks vut [] cs = true ↔ vut cs.flatten = cs.flatten.length :=
   utf8Check_chunk_independent vut L hnil cs
 
+/-! ## polling a stream encryptor after a failure -/
+
+/-- once a `read` of a stream encryptor has failed (its source failed during a refill), every later
+`read` fails: for every source event list, every request schedule, every refill size -/
+theorem encryptor_error_is_sticky (B fuel : Nat) (enc : Bytes → Bytes) (trailer : Bytes)
+    (reqs : List Nat) (st : EncSt) (src : List Ev) (pre post : List RdRes)
+    (h : encPoll B fuel enc trailer st src reqs = pre ++ RdRes.fail :: post) :
+    ∀ r ∈ post, r = RdRes.fail :=
+  encPoll_after_fail B fuel enc trailer reqs st src pre post h
+
+/-- whatever the consumer does — any request sizes, polling on after errors — a stream encryptor
+started with `queued` already-encrypted octets (the CFB prefix; nothing for AEAD) hands out only a
+prefix of: `queued`, then `enc` of consecutive non-empty segments (≤ `B` octets each) of what the
+source delivered before its first failure, then possibly the trailer. In particular never octets of
+the source that did not go through `enc`. -/
+theorem encryptor_releases_only_transformed_data (B fuel : Nat) (enc : Bytes → Bytes) (trailer queued : Bytes)
+    (reqs : List Nat) (src : List Ev) :
+    ∃ segs : List Bytes, segs.flatten <+: evPrefix src ∧ (∀ s ∈ segs, s ≠ [] ∧ s.length ≤ B) ∧
+      (released (encPoll B fuel enc trailer ⟨queued, false, false⟩ src reqs) <+: queued ++ (segs.map enc).flatten ∨
+       released (encPoll B fuel enc trailer ⟨queued, false, false⟩ src reqs) <+: queued ++ (segs.map enc).flatten ++ trailer) := by
+  obtain ⟨segs, h1, h2, h3⟩ := encStream_sound B fuel enc trailer reqs.length src
+  have hr := encPoll_released B fuel enc trailer reqs ⟨queued, false, false⟩ src rfl
+  simp only [Bool.false_eq_true, if_false] at hr
+  refine ⟨segs, h1, h2, ?_⟩
+  rcases h3 with h | h
+  · left; rw [← h]; exact hr
+  · right; rw [List.append_assoc, ← h]; exact hr
+
+/-- a failed encryptor: all further reads fail and release nothing -/
+theorem encryptor_failed_releases_nothing (B fuel : Nat) (enc : Bytes → Bytes) (trailer : Bytes)
+    (reqs : List Nat) (st : EncSt) (src : List Ev) (h : st.failed = true) :
+    released (encPoll B fuel enc trailer st src reqs) = [] := by
+  rw [encPoll_failed B fuel enc trailer reqs st src h, released_fails]
+
+/-- regression witness about the state machine as it was before the repair (`encReadPreFix`): the
+source delivers `[1, 2]`, then fails; the read fails, and the NEXT read hands out the refill buffer
+`[1, 2, 0, 0]` — plaintext that never went through `enc` -/
+theorem prefix_encryptor_leaks_refill_buffer_witness :
+    let enc : Bytes → Bytes := fun b => b.map (· + 100)
+    let r1 := encReadPreFix 4 8 enc [7] (fun _ => [1, 2, 0, 0]) ⟨[], false, false⟩ [.data [1, 2], .err, .data [3]] 4
+    let r2 := encReadPreFix 4 8 enc [7] (fun _ => [1, 2, 0, 0]) r1.2.1 r1.2.2 4
+    r1.1 = .fail ∧ r2.1 = .bytes [1, 2, 0, 0] := by decide
+
+/-- the same two reads on the repaired state machine: both fail -/
+theorem encryptor_second_read_fails_witness :
+    let enc : Bytes → Bytes := fun b => b.map (· + 100)
+    encPoll 4 8 enc [7] ⟨[], false, false⟩ [.data [1, 2], .err, .data [3]] [4, 4, 4] = [.fail, .fail, .fail] := by decide
+
 /-- the CFB encryptor's buffer size used in the instantiation -/
 theorem constants : 22 < Gen.symDecBufferSize ∧ 2 ≤ Gen.normalizedReaderWindow := by decide
 
@@ -120,5 +174,7 @@ example : fillBuffer 4 [[1, 2], [3]] 3 = ([1, 2, 3], []) := by decide
 example : fillBufferEv 4 [.data [1], .err, .data [2]] 3 = none := by decide
 example : bpDrainF [] [some [1, 2], none, some [3]] [1, 1, 1, 1] = ([1, 2], some false) := by decide
 example : cfbEncBlocks 4 [9, 9] [] [7] = [[9, 9], [7]] := by decide
+example : encPoll 2 8 (fun b => b.map (· + 100)) [7] ⟨[9], false, false⟩ [.data [1, 2, 3]] [8, 8, 8, 8, 8] =
+    [.bytes [9], .bytes [101, 102], .bytes [103], .bytes [7], .bytes []] := by decide
 
 end Rpgp.C09
